@@ -943,8 +943,24 @@ def attribute(ctx, case, out, clause):
     return _ATTR[k]
 
 
+def _fragment_witness(fid):
+    """the coordinator's merged entry in known_findings.json may carry no witness: use the one of this property's fragment"""
+    import json as _json
+    p = os.path.join(os.path.dirname(os.path.dirname(os.path.dirname(os.path.abspath(__file__)))), "findings", "C01.json")
+    try:
+        with open(p) as f:
+            for e in _json.load(f)["findings"]:
+                if e.get("id") == fid and "witness" in e:
+                    return e["witness"]
+    except (OSError, ValueError, KeyError):
+        pass
+    return None
+
+
 def reproduce_finding(ctx, finding):
-    case = finding["witness"]
+    case = finding.get("witness") or _fragment_witness(finding["id"])
+    if case is None:
+        return False
     out = ctx.run_impl([case])[0]
     v = check(ctx, [case], [out])[0]
     return bool(v) and attribute(ctx, case, out, v) == finding["id"]
@@ -1025,7 +1041,7 @@ def shrink_candidates(case):
 
 MANIFEST = {
     "level_text": (
-        "Machine-checked proofs (Coq 8.16, 52 theorems, all closed under the global context) about (a) the certificate "
+        "Machine-checked proofs (Coq 8.16, 56 theorems, all closed under the global context) about (a) the certificate "
         "checker cert_ok that is run, extracted, on the implementation's own (x, y, u, v): acceptance implies x is a "
         "minimum-cost perfect matching over listed pairs, y its inverse and (u, v) a dual certificate, for every n and every "
         "sparsity pattern; (b) a line-level executable Gallina model of lapjv.py + _lapjv.pyx with switches rt in {AsIs, Fixed}, "
@@ -1038,7 +1054,10 @@ MANIFEST = {
         "(C01_lapjv_fixed_pm: all four phases - column reduction, reduction transfer, augmenting row reduction incl. -inf "
         "prices via a Hall argument, augment with its pred chain / flip) and, when every row lists at least two candidates, "
         "that x is a minimum-cost perfect matching (C01_lapjv_fixed_optimal: Dijkstra invariant of augment "
-        "C01_aug_dist_inv, price update C01_aug_price_slack, weak duality); (c) the tracker's read-back of the solver result "
+        "C01_aug_dist_inv, price update C01_aug_price_slack, weak duality); the same two theorems hold for the reference variant "
+        "lapjv_ref whose augment uses a true infinity (C01_lapjv_ref_fixed_pm, C01_lapjv_ref_fixed_optimal, distance invariant "
+        "C01_aug_dist_invR over d in Fin | +inf), and for it a rebuild of scan at a loop head is proved non-empty from has_PM by "
+        "a Hall-block argument (C01_aug_scan_nonempty_ref); (c) the tracker's read-back of the solver result "
         "is injective for every permutation, and the identity clause holds at the level of the assignment problem."),
     "level_note": (
         "KNOWN FINDING F20 (inside the property's quantifier): memory safety of augment FAILS - `inf = np.sum(c) + 1` "
@@ -1047,10 +1066,15 @@ MANIFEST = {
         "matching through three pairs of cost 14 and 0 row-reduction passes, every B >= 14). Attribution: F20 iff the "
         "faithful sentinel model gives no result on the input AND the same model with a true infinity (lapjv_ref) returns; a "
         "crash or wrong answer on an input where the sentinel model does return is a VIOLATION. The check runs this class "
-        "(forced expensive pairs, displacement chains, k = 0 emphasised) fork-isolated on every run. In 40 000 such instances "
-        "the sentinel failed 241 times for the as-is model and never for the row-offset-repaired (Fixed) model. "
-        "Not proved: that the Fixed model always returns (a rebuild of scan in augment is never empty - needs the adequacy of "
-        "inf = sum(c) + 1; with eps 0 in the retry decision it is even false for the model's fuel, C01_lapjv_fixed_eps0_not_total); "
+        "(forced expensive pairs, displacement chains, k = 0 emphasised) fork-isolated on every run. In 340 000 such instances "
+        "the sentinel failed 1 810 times for the as-is model and never for the row-offset-repaired (Fixed) model (its only "
+        "no-results, 186 in the last 300 000, are price wars that the true-infinity variant shares); whether inf = sum(c) + 1 is adequate once F1 "
+        "is repaired is neither proved nor refuted. "
+        "Not proved: that the Fixed model always returns. For the reference variant the only augment-side gap is the "
+        "mechanical lemma aug_loop_totalR (the loop induction with 'exists result' on top of C01_aug_scan_nonempty_ref, "
+        "C01_aug_loop_fuel, C01_aug_lookup_defined); the whole-solver gap is the fuel of the eps-retry passes of augmenting row "
+        "reduction (with eps 0 in the retry decision totality is even false for the model's fuel, "
+        "C01_lapjv_fixed_eps0_not_total); for the sentinel variant additionally the adequacy of inf. "
         "optimality for inputs with single-candidate rows (-inf prices): only the price-update core over InvE and the "
         "spec-level reserved-block lemma are proved. Both hypotheses are evaluated on every generated case by the check (the "
         "repaired model returns; rows with >= 2 candidates are theorem-covered, the others checker-only) and both clauses are "
